@@ -339,6 +339,15 @@ for ch in ("A",):
            level="B", bounds="literals '::' + at most %d characters from [0-9.]] (including the closing bracket)" % (k - 2),
            functions=["uriParseIPv6address2" + ch], inlined=["uriStopSyntax" + ch, "uriFreeUriMembersMm" + ch, "uriWriteQuadToDoubleByte", "uriGetOctetValue"],
            stubs=["memory manager (ledger stub)", "memcpy/memset: CBMC models"], timeout_s=3000, mem_gb=16)
+for ch in ("A",):
+    ob(id="ParseIPv6address2.groups.K17.%s.H" % ch, props=["C01", "C02", "C03", "C19"], route="H", harness="c02_ip6.c", char=ch,
+       group="uriParseIPv6address2 == RFC 3986 IPv6address recogniser on the slice of long literals over the six symbols 1 2 a F : ] (group placement around '::', eight-group form) - bounded stand-in",
+       defines={"V_K": 17, "SPEC_IP6_MAX": 17, "V_IP6_MODE": 2},
+       unwindset={"uriParseIPv6address2%s.0" % ch: 18, "uriParseIPv6address2%s.1" % ch: 18, "uriParseIPv6address2%s.2" % ch: 3,
+                  "uriFreeUriMembersMm%s.*" % ch: 2},
+       level="B", bounds="literals of at most 17 characters (including the closing bracket) over the symbols 1 2 a F : ]",
+       functions=["uriParseIPv6address2" + ch], inlined=["uriStopSyntax" + ch, "uriFreeUriMembersMm" + ch, "uriWriteQuadToDoubleByte", "uriGetOctetValue"],
+       stubs=["memory manager (ledger stub)", "memcpy/memset: CBMC models"], timeout_s=3000, mem_gb=24)
 for ch in ("A",):        # the W instance exceeds the memory budget; the scanner is compiled from the same text
     for (tier, k) in ((Q, 8), (T, 12)):
         ob(id="ParseIPv6address2.K%d.%s.H" % (k, ch), props=["C01", "C02", "C03", "C19"], route="H", harness="c02_ip6.c", char=ch, tier=tier,
@@ -508,9 +517,9 @@ for ch in ("A", "W"):
     ob(id="ComposeSizes.%s.H" % ch, props=["C17", "C19"], route="H", harness="c17_sizes.c", char=ch,
        group="uriComposeQueryEngine via uriComposeQueryCharsRequiredEx / uriComposeQueryEx with symbolic string lengths: chars required == worst-case sum, sufficient, written == length + 1, no write beyond maxChars, sizes beyond INT_MAX refused, no int overflow",
        replace_bodies=[(["uriEscapeEx" + ch] + (["wcslen"] if ch == "W" else []), "compose_callees.c")],
-       defines=by_tier({"VI": 3, "VD": 24}, {"VI": 4, "VD": 40}), checks=NOPTROVF,
+       defines=(by_tier({"VI": 3, "VD": 24}, {"VI": 4, "VD": 40}) if ch == "A" else by_tier({"VI": 3, "VD": 8}, {"VI": 3, "VD": 24})), checks=NOPTROVF,
        unwindset=by_tier({"uriComposeQueryEngine%s.*" % ch: 4, "cs_find.*": 9}, {"uriComposeQueryEngine%s.*" % ch: 5, "cs_find.*": 9}),
-       level="B", bounds=by_tier("<=3 items; string lengths symbolic up to 2^40 (measuring: no further bound; writing: destination blocks of 1..24 characters, exact size)",
+       level="B", bounds=by_tier("<=3 items; string lengths symbolic up to 2^40 (measuring: no further bound; writing: destination blocks of 1..24 characters (W: 1..8), exact size)",
                                  "<=4 items; string lengths symbolic up to 2^40; writing: destination blocks of 1..40 characters"),
        functions=["uriComposeQueryEngine" + ch, "uriComposeQueryCharsRequiredEx" + ch, "uriComposeQueryEx" + ch],
        inlined=["uriComposeQueryEngine" + ch], stubs=["uriEscapeEx (contract stub stubs/compose_callees.c; its clauses are those of EscapeEx.A.N)", "strlen/wcslen (table stub: assumed libc contract)"],
@@ -526,6 +535,15 @@ for ch in ("A", "W"):
        level="P", bounds="none (the rejected paths are loop-free; argument objects hold arbitrary bytes)",
        functions=["uri%s%s" % (f, ch) for f in MM_FUNCS] + ["uriMemoryManagerIsComplete"], inlined=["uriMemoryManagerIsComplete"],
        stubs=["memory manager (ledger stub with one member removed)"], covers=False, object_bits=12, timeout_s=600, mem_gb=6)
+
+for ch in ("A", "W"):
+    ob(id="NullArgs.%s.H" % ch, props=["C13", "C14", "C06", "C10", "C12", "C17", "C19"], route="H", harness="c23_nullargs.c", char=ch,
+       group="NULL-argument exits of the manager-taking operations with arbitrary (stale) output objects: URI_ERROR_NULL, nothing requested, no stale pointer released - neither by the call nor by the caller's cleanup of the output URI; read-only arguments untouched",
+       unwindset={"uriFreeUriMembersMm%s.*" % ch: 2},
+       level="P", bounds="none (the rejected paths are loop-free; every non-NULL argument object holds arbitrary bytes)",
+       functions=["uri%s%s" % (f, ch) for f in ["AddBaseUriExMm", "AddBaseUriImpl", "RemoveBaseUriMm", "RemoveBaseUriImpl", "NormalizeSyntaxExMm", "MakeOwnerMm", "FreeUriMembersMm",
+                                                "DissectQueryMallocExMm", "ComposeQueryMallocExMm", "ComposeQueryCharsRequiredEx", "ResetUri"]],
+       inlined=["all of the above"], stubs=["memory manager (ledger stub)"], covers=False, object_bits=12, timeout_s=600, mem_gb=6)
 
 # ----------------------------------------------------------------------------------------------------------------
 # thin public wrappers: which callee, once, with which arguments and defaults (loop-free => complete)
@@ -556,20 +574,20 @@ QUICK = {
     "C03": [r"^Parse[A-Za-z0-9]+\.A\.D$", r"^(FreeUriMembersMm|StopSyntaxMalloc|PushPathSegment)\.A", r"^ParseIpFourAddress\.A", r"^ParseIPv6address2\.K8\.A"],
     "C04": [r"^ToString\.content\..*\.A"],
     "C05": [r"^ToString\.cap\."],
-    "C06": [r"^Wrappers\.A", r"^AddBaseUri\.A"],
+    "C06": [r"^Wrappers\.A", r"^NullArgs\.A", r"^AddBaseUri\.A"],
     "C07": [r"^RemoveBaseUri\.A", r"^MakeOwner\.A", r"^NormalizeSyntax\.borrowed\.(scheme-query-fragment|all-short|path)\.A", r"^PushPathSegment\.A"],
     "C08": [r"^Wrappers\.A", r"^NormalizeSyntax\.(borrowed|owned)\.(scheme-query-fragment|authority|path|all-short)\.A", r"^NormalizeMaskRequired\..*\.A"],
     "C09": [r"^NormalizeSyntax\.(borrowed|owned)\.(path|all-short)\.A", r"^NormalizeSyntax\.borrowed\.(dots|netpath)\.A"],
-    "C10": [r"^Wrappers\.A", r"^RemoveBaseUri\."],
+    "C10": [r"^Wrappers\.A", r"^NullArgs\.A", r"^RemoveBaseUri\."],
     "C11": [r"."],
     "C12": [r"^Watch\.(AddBaseUri|Readers|NormalizeMaskRequired|ComposeQuery)\.A", r"^MakeOwner\.", r"^NormalizeSyntax\.borrowed\.authority\.A", r"^EqualsUri\.A", r"^ToString\.cap\.regname\.A", r"^NormalizeMaskRequired\.authority\.A"],
-    "C13": [r"^Wrappers\.A", r"^ManagerEntry\.A", r"^static\.", r"^FreeUriMembersMm\.A", r"^MakeOwner\.A", r"^DissectQuery\.A", r"^uriMemoryManagerIsComplete", r"^AppendQueryItem\.A", r"^ComposeQueryMalloc\.A"],
-    "C14": [r"^AddBaseUri\.A", r"^MakeOwner\.A", r"^DissectQuery\.A", r"^AppendQueryItem\.A", r"^StopSyntaxMalloc\.A", r"^PushPathSegment\.A", r"^RemoveBaseUri\.A", r"^NormalizeSyntax\.borrowed\.path\.A"],
+    "C13": [r"^Wrappers\.A", r"^NullArgs\.A", r"^ManagerEntry\.A", r"^static\.", r"^FreeUriMembersMm\.A", r"^MakeOwner\.A", r"^DissectQuery\.A", r"^uriMemoryManagerIsComplete", r"^AppendQueryItem\.A", r"^ComposeQueryMalloc\.A"],
+    "C14": [r"^NullArgs\.A", r"^ManagerEntry\.A", r"^AddBaseUri\.A", r"^MakeOwner\.A", r"^DissectQuery\.A", r"^AppendQueryItem\.A", r"^StopSyntaxMalloc\.A", r"^PushPathSegment\.A", r"^RemoveBaseUri\.A", r"^NormalizeSyntax\.borrowed\.path\.A"],
     "C15": [r"."],
     "C16": [r"^Wrappers\.A", r"^EscapeEx\.A\.N", r"^UnescapeInPlaceEx\.A\.N", r"^EscapeEx\.corner", r"Content\.", r"^EscapeRoundTrip\.", r"^UnescapeTokens\.A"],
     "C17": [r"^Wrappers\.A", r"^ComposeSizes\.", r"^DissectQuery\.", r"^AppendQueryItem\.A", r"^ComposeQuery\.", r"^ComposeQueryMalloc\."],
     "C18": [r"^FilenameRoundTrip", r"^FilenameShortForms\."],
-    "C19": [r"^Wrappers\.W", r"^ManagerEntry\.W", r"^ComposeSizes\.W", r"^Marks\.Parse(UriTail|AuthorityTwo|OwnUserInfo)\.W", r"^ComposeQueryMalloc\.W", r"^EqualsUri\.W", r"^CompareRange\.W", r"^ToString\.cap\..*\.W", r"^MakeOwner\.W", r"^RemoveBaseUri\.W", r"^DissectQuery\.W", r"Content\.W", r"^EscapeRoundTrip\.W",
+    "C19": [r"^Wrappers\.W", r"^NullArgs\.W", r"^ManagerEntry\.W", r"^ComposeSizes\.W", r"^Marks\.Parse(UriTail|AuthorityTwo|OwnUserInfo)\.W", r"^ComposeQueryMalloc\.W", r"^EqualsUri\.W", r"^CompareRange\.W", r"^ToString\.cap\..*\.W", r"^MakeOwner\.W", r"^RemoveBaseUri\.W", r"^DissectQuery\.W", r"Content\.W", r"^EscapeRoundTrip\.W",
             r"^OnExitHost\.W", r"^NormalizeMaskRequired\..*\.W", r"^Dispatch\.Parse(PctEncoded|UriReference|OwnHost2|IpFuture)\.W", r"^FilenameShortForms\.W"],
     "C20": [r"^static\.", r"^Watch\..*\.A", r"^Watch\.(AddBaseUri|ComposeQuery)\.W", r"^EqualsUri\.A", r"^ToString\.cap\.regname\.A", r"^MakeOwner\.A"],
 }
